@@ -25,7 +25,7 @@ ASSUMPTIONS = ["sign changes of each family are known exactly from its parameter
                "tolerance semantics: relative to max(1, |x|), floor 4 eps (the solvers' own documented floor D.epsilon)"]
 
 DT = {"float32": np.float32, "float64": np.float64, "longdouble": np.longdouble}
-FAMILIES = ["lin", "cubic", "poly3", "tanh", "expm1", "jump", "definite", "double", "end", "both_ends", "kink"]
+FAMILIES = ["lin", "cubic", "poly3", "tanh", "expm1", "jump", "definite", "double", "end", "both_ends", "kink", "int_tail"]
 
 
 @st.composite
@@ -47,8 +47,13 @@ def _case(draw):
     n = draw(st.sampled_from([1, 1, 2, 3, 5, 8, 16]))
     comps = [draw(_component()) for _ in range(n)]
     shared = draw(st.booleans())
+    # how the vector solver is given the functions: a list of scalar functions, or ONE callable of the whole vector (which may
+    # hand back its argument: f(x) = x)
+    vec_mode = draw(st.sampled_from(["list", "list", "callable", "identity"]))
+    if vec_mode == "identity":
+        comps = [dict(c, fam="lin", s=1.0, r=0.0) for c in comps]
     return dict(part="brent", comps=comps, dtype=draw(st.sampled_from(["float64", "float64", "float32", "longdouble"])),
-                tol=draw(st.sampled_from([None, None, 1e-15, 1e-12, 1e-9, 1e-6, 1e-3])), shared=shared)
+                tol=draw(st.sampled_from([None, None, 1e-15, 1e-12, 1e-9, 1e-6, 1e-3])), shared=shared if vec_mode == "list" else False, vec_mode=vec_mode)
 
 
 def parts(tier):
@@ -121,6 +126,11 @@ class Fn(object):
             return self.s * np.expm1(np.clip(self.k * d, -50, 50))
         if fam == "jump":
             return self.s * (T(1) if d >= 0 else T(-1)) * (T(1) + np.abs(d))
+        if fam == "int_tail":
+            # a Python int (-1 / +1) far to the left of the root, floats elsewhere: `np.exp(x) - 1.5 if x > 0.05 else -1`
+            if d < -T(0.5) * T(self.p["wl"]):
+                return -1 if self.s > 0 else 1
+            return self.s * np.expm1(np.clip(self.k * d, -50, 50))
         if fam == "kink":
             # continuous, piecewise linear, slopes s and s k on the two sides of the root
             return self.s * (self.k * d if d > 0 else d)
@@ -228,6 +238,12 @@ def check(case):
             los[:] = lo0
             his[:] = hi0
             xs, oks = opt.brentsrootvec(list(fns), [dt(lo0), dt(hi0)], tol=tol)
+        elif case.get("vec_mode", "list") == "callable":
+            labels.append("vector_solver_given_one_callable")
+            xs, oks = opt.brentsrootvec(lambda x: np.asarray([fns[i](x[i]) for i in range(n)], dtype=dt), [los.copy(), his.copy()], tol=tol)
+        elif case.get("vec_mode") == "identity":
+            labels.append("vector_solver_given_the_identity")
+            xs, oks = opt.brentsrootvec(lambda x: x, [los.copy(), his.copy()], tol=tol)
         else:
             xs, oks = opt.brentsrootvec(list(fns), [los.copy(), his.copy()], tol=tol)
         xs = np.asarray(xs).reshape(-1)
